@@ -14,47 +14,48 @@
 (*   AlgoRaises     it raises exactly when some invariant of some owner raises;                   *)
 (*   Termination    every traversal ends.                                                         *)
 EXTENDS VerifModels
-CONSTANTS MaxModels, MaxInsts
+CONSTANTS MaxModels, MaxSpecial, MaxInsts
 
-VARIABLES m, inst, stack, out, status
-vars == <<m, inst, stack, out, status>>
+\* M: the model, inst: the instance being verified (both fixed by Init), stack: the pending visits,
+\* out: the errors yielded so far, status: run / done / raised
+VARIABLES M, inst, stack, out, status
+vars == <<M, inst, stack, out, status>>
 
 Frame(v, ty, path) == [v |-> v, ty |-> ty, path |-> path]
-Rev(s) == [j \in 1..Len(s) |-> s[Len(s) + 1 - j]]
 
 \* evaluate the invariants of one owner in order; [raised, errs]
-Check(M, invs, val, path) ==
-    LET rs == [j \in 1..Len(invs) |-> Eval(invs[j].e, [self |-> val], GNative(M))]
+Check(invs, val, path) ==
+    LET rs == Force([j \in 1..Len(invs) |-> Eval(invs[j].e, [self |-> val], GNative(M))])
     IN  [raised |-> \E j \in 1..Len(invs) : IsErr(rs[j]),
          errs |-> LET bad == SelectSeq([j \in 1..Len(invs) |-> j], LAMBDA j : IsFalse(rs[j])) IN [q \in 1..Len(bad) |-> <<path, invs[bad[q]].d>>]]
 
-ModelIdx == (1..MinOf(MaxModels, NB)) \cup ((NB + 1)..NModels)
+ModelIdx == (1..MinOf(MaxModels, NB)) \cup ((NB + 1)..MinOf(NB + MaxSpecial, NModels))
 
-Init == /\ m \in ModelIdx
-        /\ inst \in {Cases[m].insts[j] : j \in 1..MinOf(MaxInsts, Len(Cases[m].insts))}
+Init == /\ \E k \in ModelIdx :
+                /\ M = ModelOf(k, ModelTrees(k))
+                /\ inst \in {Instances(k)[j] : j \in 1..MinOf(MaxInsts, Len(Instances(k)))}
         /\ stack = <<Frame(inst, TInst(inst.c), "")>>
         /\ out = <<>>
         /\ status = "run"
 
 Step ==
     /\ status = "run"
-    /\ UNCHANGED <<m, inst>>
+    /\ UNCHANGED <<M, inst>>
     /\ IF stack = <<>> THEN status' = "done" /\ UNCHANGED <<stack, out>>
-       ELSE LET M == Cases[m].model
-                fr == Head(stack)
+       ELSE LET fr == Head(stack)
                 rest == Tail(stack)
             IN  CASE fr.ty.t = "opt" ->
                         /\ stack' = IF fr.v.t = "none" THEN rest ELSE <<Frame(fr.v, fr.ty.of, fr.path)>> \o rest
                         /\ UNCHANGED <<out, status>>
                   [] fr.ty.t = "inst" ->
-                        LET c == Check(M, AllInvsOfClass(M, fr.v.c), fr.v, fr.path)
+                        LET c == Check(AllInvsOfClass(M, fr.v.c), fr.v, fr.path)
                             ps == AllPropsOf(M, fr.v.c)
                         IN  IF c.raised THEN status' = "raised" /\ UNCHANGED <<stack, out>>
                             ELSE /\ out' = out \o c.errs
                                  /\ stack' = [j \in 1..Len(ps) |-> Frame(fr.v.f[ps[j].name], ps[j].ty, fr.path \o "." \o ps[j].name)] \o rest
                                  /\ UNCHANGED status
                   [] fr.ty.t = "cprim" ->
-                        LET c == Check(M, AllInvsOfCPrim(M, fr.ty.c), fr.v, fr.path)
+                        LET c == Check(AllInvsOfCPrim(M, fr.ty.c), fr.v, fr.path)
                         IN  IF c.raised THEN status' = "raised" /\ UNCHANGED <<stack, out>>
                             ELSE out' = out \o c.errs /\ stack' = rest /\ UNCHANGED status
                   [] fr.ty.t = "list" ->
@@ -68,12 +69,11 @@ Spec == Init /\ [][Next]_vars /\ WF_vars(Step)
 
 AlgoExact ==
     status = "done" =>
-        LET M == Cases[m].model
-        IN  /\ ~MustRaiseG(M, inst, GNative(M))
-            /\ {out[j] : j \in 1..Len(out)} = ExpectedG(M, inst, GNative(M))
-            /\ Cardinality({out[j] : j \in 1..Len(out)}) = Len(out)
-AlgoRaises == status = "raised" => MustRaiseG(Cases[m].model, inst, GNative(Cases[m].model))
+        /\ ~MustRaiseG(M, inst, GNative(M))
+        /\ {out[j] : j \in 1..Len(out)} = ExpectedG(M, inst, GNative(M))
+        /\ Cardinality({out[j] : j \in 1..Len(out)}) = Len(out)
+AlgoRaises == status = "raised" => MustRaiseG(M, inst, GNative(M))
 \* pre-order: what has been reported so far is always a subset of the expectation
-AlgoSoundPrefix == status = "run" => {out[j] : j \in 1..Len(out)} \subseteq ExpectedG(Cases[m].model, inst, GNative(Cases[m].model))
+AlgoSoundPrefix == status = "run" => {out[j] : j \in 1..Len(out)} \subseteq ExpectedG(M, inst, GNative(M))
 Termination == <>(status # "run")
 =============================================================================
